@@ -11,7 +11,7 @@ from hydrodiy.gis.grid import Grid, Catchment, delineate_river
 
 PROPERTY = "C06"
 RULE = ("(a) exhaustive: every flow grid of shape 1x1,1x2,2x1,1x3,3x1,2x2 "
-        "(thorough adds 2x3,3x2,1x4,4x1) over the alphabet {0, eight ESRI "
+        "(thorough adds 1x4,4x1, and 2x3,3x2 over seven codes) over the alphabet {0, eight ESRI "
         "codes, invalid code 3} x every outlet x inlet sets {none, each other "
         "single cell} x every river start; (b) Hypothesis: grids up to 12x12 "
         "(thorough 40x40) of three kinds (uniform codes with cycles, random "
@@ -220,10 +220,15 @@ def exhaustive_oracle(case):
 
 
 def enum_cases(tier):
-    shapes = list(G.SHAPES_QUICK)
+    import itertools
+    it = G.enum_grids(list(G.SHAPES_QUICK))
     if tier == "thorough":
-        shapes += G.SHAPES_THOROUGH
-    return G.enum_grids(shapes)
+        # 1x4 / 4x1 over the full alphabet, 2x3 / 3x2 over seven codes
+        it = itertools.chain(
+            it, G.enum_grids([(1, 4), (4, 1)]),
+            G.enum_grids([(2, 3), (3, 2)],
+                         alphabet=[0, 1, 2, 4, 16, 64, 3]))
+    return it
 
 
 def enum_3x3(tier):
@@ -231,7 +236,7 @@ def enum_3x3(tier):
     centre column pattern): thorough tier."""
     if tier != "thorough":
         return iter(())
-    return G.enum_grids([(3, 3)], alphabet=[1, 4, 16, 64, 2])
+    return G.enum_grids([(3, 3)], alphabet=[1, 4, 16, 64])
 
 
 def enum_star(tier):
